@@ -62,6 +62,10 @@ func (e *env) restartPhase(md *model) {
 	before := e.served()
 	// ---- stop (cancel, then Close) and start again on the same data directory
 	cfg := e.m.Cfg
+	if e.origStorage != nil {
+		e.s.SetStorage(e.origStorage) // so that Close closes the region storage it opened
+		e.origStorage = nil
+	}
 	e.m.Stop()
 	m2, err := srv.Start(cfg)
 	if err != nil {
@@ -87,6 +91,7 @@ func (e *env) restartPhase(md *model) {
 	e.kv = kvx.New(kv.NewEtcdKVBase(e.s.GetClient(), root))
 	e.guard = &guardKV{KV: e.kv, allowed: map[int64]bool{e.owner: true}}
 	st := core.NewStorage(e.guard)
+	e.origStorage = e.s.GetStorage()
 	e.rc.SetStorage(st)
 	e.s.SetStorage(st)
 	stored, orphanW, serr := e.stored()
